@@ -55,6 +55,7 @@ func unreleased(c ctypes.Commitments) sdkmath.Int {
 // A1: from any stored entry whose claimed amount does not exceed what the schedule has released
 // at the last claim, and from any entry left behind by a partial cancel (claimed <= total only),
 // a claim at any later height succeeds, releases a non-negative amount, never more than the total.
+//
 //vrf:cover claim-ok removed kept
 //vrf:bound 1 entry; total, claimed unbounded with 0 <= claimed < total; heights, schedule length < 2^40, numBlocks >= 1
 func H_A1_ClaimAlwaysSucceeds() {
@@ -113,6 +114,7 @@ func H_A1_ClaimAlwaysSucceeds() {
 }
 
 // A2: once the schedule has elapsed the whole remaining total is released and the entry is gone.
+//
 //vrf:cover done
 //vrf:bound as A1 with height >= start + numBlocks
 func H_A2_CompleteAfterSchedule() {
@@ -134,6 +136,7 @@ func H_A2_CompleteAfterSchedule() {
 // A3: a partial cancel returns exactly the cancelled, not-yet-released amount as claimable Eden:
 // unreleased total drops by the amount, claimable Eden rises by the amount, nothing is minted,
 // and every surviving entry still has claimed <= total.
+//
 //vrf:cover cancel-ok cancel-refused
 //vrf:bound 2 entries, symbolic totals/claimed/schedules; cancel amount symbolic
 func H_A3_CancelConserves() {
@@ -172,6 +175,7 @@ func H_A3_CancelConserves() {
 }
 
 // A4: vest creates an entry for exactly the amount taken from claimable Eden.
+//
 //vrf:cover vest-ok
 func H_A4_VestConserves() {
 	h := vrf.I64("height", 1, maxH)
@@ -197,6 +201,7 @@ func H_A4_VestConserves() {
 }
 
 // A5: vest-now pays exactly amount / factor (truncated) and consumes exactly amount.
+//
 //vrf:cover vestnow-ok
 //vrf:bound factor symbolic in [1, 2^40]
 func H_A5_VestNow() {
@@ -226,4 +231,54 @@ func H_A5_VestNow() {
 	c3 := env.Comm.GetCommitments(ctx, alice)
 	vrf.Assert(c3.GetClaimedForDenom(ptypes.Eden).Equal(eden0.Sub(amt)), "A5: exactly the amount is consumed")
 	vrf.Assert(c3.GetClaimedForDenom(ptypes.Eden).Equal(eden0.Sub(amt)), "C15: the native tokens a vest-now mints are paid for with consumed Eden (the release cannot be repeated)")
+}
+
+// A4 with entries already on the list (full or not): whatever a successful vest does besides adding the new schedule -
+// a future version may release what has vested first to free a slot - tokens released plus Eden still scheduled plus
+// claimable Eden is conserved; and so it is through the claim that follows once every schedule has elapsed.
+//
+//vrf:cover vest-ok vest-refused list-full
+//vrf:bound 2 existing entries (symbolic totals / claimed / schedules), NumMaxVestings symbolic in [1, 3] (list full or not), symbolic claimable Eden and vest amount; then one claim at a symbolic later height
+func H_A4_VestOntoExistingEntries() {
+	e1, e2 := symEntry("1"), symEntry("2")
+	h := vrf.I64("height", 1, maxH)
+	env := newEnv(h)
+	ctx := env.Ctx
+	p := ctypes.DefaultParams()
+	max := vrf.I64("numMaxVestings", 1, 3)
+	p.VestingInfos[0].NumMaxVestings = max
+	env.Comm.SetParams(ctx, p)
+	eden0, amt := vrf.Int("claimedEden"), vrf.Int("amt")
+	vrf.Assume(eden0.IsPositive())
+	vrf.Assume(amt.IsPositive())
+	c := env.Comm.GetCommitments(ctx, alice)
+	c.VestingTokens = []*ctypes.VestingTokens{e1.tokens(), e2.tokens()}
+	c.AddClaimed(sdk.NewCoin(ptypes.Eden, eden0))
+	env.Comm.SetCommitments(ctx, c)
+	before := unreleased(c)
+	if max <= 2 {
+		vrf.Cover("list-full")
+	}
+	srv := ckeeper.NewMsgServerImpl(*env.Comm)
+	_, err := srv.Vest(ctx, &ctypes.MsgVest{Creator: alice.String(), Denom: ptypes.Eden, Amount: amt})
+	if err != nil {
+		vrf.Cover("vest-refused")
+		return // failed transaction: rolled back by baseapp
+	}
+	vrf.Cover("vest-ok")
+	c2 := env.Comm.GetCommitments(ctx, alice)
+	released := env.W.BalOf(alice, ptypes.Elys)
+	vrf.Assert(int64(len(c2.VestingTokens)) <= max, "A4: the list never holds more than the maximum number of vestings")
+	vrf.Assert(c2.GetClaimedForDenom(ptypes.Eden).Equal(eden0.Sub(amt)), "A4: exactly the vested amount leaves claimable Eden")
+	vrf.Assert(released.Add(unreleased(c2)).Equal(before.Add(amt)), "A4: tokens released + Eden still scheduled == Eden put into vesting (existing entries + the new one)")
+	// every schedule elapses, then one claim
+	h2 := vrf.I64("laterHeight", 1, maxH)
+	vrf.Assume(h2 >= h)
+	ctx2 := vrf.SetBlock(ctx, h2, 2000)
+	if _, err := env.Comm.ClaimVesting(ctx2, &ctypes.MsgClaimVesting{Sender: alice.String()}); err != nil {
+		vrf.Assert(false, "A4: claiming what has vested succeeds")
+		return
+	}
+	c3 := env.Comm.GetCommitments(ctx2, alice)
+	vrf.Assert(env.W.BalOf(alice, ptypes.Elys).Add(unreleased(c3)).Equal(before.Add(amt)), "A4: after the next claim, tokens released + Eden still scheduled == Eden put into vesting")
 }
